@@ -530,22 +530,41 @@ CONDITIONS.append({"fn": "c01_analyze", "quick": 60, "thorough": 120, "sel_only"
 # ---- the shared corpus: render == render_async on every member -------------------------------------------------------
 from harness import corpus as _corpus  # noqa: E402
 
-_CENV = _corpus.make_env(Env)
+from liquid import Mode as _Mode, StrictUndefined as _StrictUndefined  # noqa: E402
+
+
+class _LimEnv(Env):
+    loop_iteration_limit = 6
+    output_stream_limit = 40
+    local_namespace_limit = 400
+
+
+# the same member under several configurations: the two render paths must agree in each of them
+_CENVS = {"strict": _corpus.make_env(Env), "lax": _corpus.make_env(Env, tolerance=_Mode.LAX), "warn": _corpus.make_env(Env, tolerance=_Mode.WARN),
+          "autoescape": _corpus.make_env(Env, autoescape=True), "strict undefined": _corpus.make_env(Env, undefined=_StrictUndefined),
+          "tight limits": _corpus.make_env(_LimEnv)}
 
 
 def _corpus_check(w2, w1, leaf, d):
-    t = _corpus.template(_CENV, w2, w1, leaf)
-    if t is None:
-        return None
-    a = _corpus.outcome(lambda: t.render(**_corpus.data(d)))
-    b = _corpus.outcome(lambda: drive(t.render_async(**_corpus.data(d))))
-    return None if a == b else {"render": a, "render_async": b}
+    import warnings
+    bad = {}
+    for label, env in _CENVS.items():
+        t = _corpus.template(env, w2, w1, leaf)
+        if t is None:
+            continue
+        with warnings.catch_warnings():
+            warnings.simplefilter("ignore")
+            a = _corpus.outcome(lambda: t.render(**_corpus.data(d)))
+            b = _corpus.outcome(lambda: drive(t.render_async(**_corpus.data(d))))
+        if a != b:
+            bad[label] = {"render": a, "render_async": b}
+    return bad or None
 
 
 c01_corpus, _det = _corpus.mk_condition("c01_corpus", _corpus_check)
 DETAIL = globals().get("DETAIL", {})
 DETAIL["c01_corpus"] = _det
-CONDITIONS.append({"fn": "c01_corpus", "quick": 90, "thorough": 200, "sel_only": True, "bounds": _corpus.BOUNDS})
+CONDITIONS.append({"fn": "c01_corpus", "quick": 180, "thorough": 300, "sel_only": True, "bounds": _corpus.BOUNDS + "; strict, lax, warn, autoescape, StrictUndefined and tight-limit environments"})
 
 ASSUMPTIONS = [
     "template sources are the concrete skeletons of harness/c01.py; x, y in None|bool|int(-1..3)|str<=1, z bool, list length 0..3 are symbolic",
